@@ -824,6 +824,77 @@ def process_global_setting(model: Model, fn: FunctionInfo) -> list[Lint]:
     return out
 
 
+def module_level_one_shot(model: Model, fn: FunctionInfo) -> list[Lint]:
+    """A module-level name bound to a one-shot iterator (generator expression, map / filter / zip ..) and read inside
+    a function: the first call that iterates it uses it up, every later call sees an empty iterator."""
+    out: list[Lint] = []
+    mod = fn.module
+    local = {n.id for n in ast.walk(fn.node) if isinstance(n, ast.Name) and isinstance(n.ctx, ast.Store)} | {p.name for p in fn.params}
+    for n in ast.walk(fn.node):
+        if isinstance(n, ast.Name) and isinstance(n.ctx, ast.Load) and n.id not in local and n.id in mod.constants:
+            v = mod.constants[n.id]
+            kind = None
+            if isinstance(v, ast.GeneratorExp):
+                kind = "a generator expression"
+            elif isinstance(v, ast.Call) and isinstance(v.func, ast.Name) and v.func.id in ("map", "filter", "zip", "iter", "reversed", "enumerate"):
+                kind = f"{v.func.id}(...)"
+            if kind is None:
+                continue
+            out.append(Lint("module-one-shot", fn, n.lineno, n.id, f"`{n.id}` is bound at module level to {kind}, a one-shot iterator, and {fn.name} iterates it: the first call (up to where it stops reading) uses it up, and from then on the loop body never runs / `any(..)` is False / `all(..)` is True - the answer of {fn.name} depends on how often it has been called before"))
+    return out
+
+
+def isdigit_then_int(model: Model, fn: FunctionInfo) -> list[Lint]:
+    """``int(s)`` under the test ``s.isdigit()``: str.isdigit is True for characters int() refuses (superscript
+    digits '\u00b2', circled digits ..) - ValueError for such a string; str.isdecimal is the matching test."""
+    out: list[Lint] = []
+    for n in ast.walk(fn.node):
+        test = body_nodes = None
+        if isinstance(n, ast.IfExp):
+            test, body_nodes = n.test, [n.body]
+        elif isinstance(n, ast.If):
+            test, body_nodes = n.test, n.body
+        elif isinstance(n, (ast.ListComp, ast.SetComp, ast.GeneratorExp, ast.DictComp)):
+            for g in n.generators:
+                for c in g.ifs:
+                    out += _isdigit_pair(fn, c, [n.elt] if not isinstance(n, ast.DictComp) else [n.key, n.value])
+            continue
+        if test is not None:
+            out += _isdigit_pair(fn, test, body_nodes)
+    return out
+
+
+def _isdigit_pair(fn: FunctionInfo, test: ast.expr, body_nodes: list) -> list[Lint]:
+    out: list[Lint] = []
+    tested = [ast.unparse(c.func.value) for c in ast.walk(test) if isinstance(c, ast.Call) and isinstance(c.func, ast.Attribute) and c.func.attr == "isdigit" and not c.args]
+    if not tested or any(isinstance(x, ast.Not) for x in ast.walk(test)):
+        return out
+    for b in body_nodes:
+        for c in ast.walk(b):
+            if isinstance(c, ast.Call) and isinstance(c.func, ast.Name) and c.func.id == "int" and len(c.args) == 1 and ast.unparse(c.args[0]) in tested:
+                out.append(Lint("isdigit-int", fn, c.lineno, ast.unparse(c.args[0])[:30], f"`int({ast.unparse(c.args[0])})` is guarded by `.isdigit()`, which also holds for characters int() does not accept (superscript and other non-decimal digits such as '\u00b2'): a string containing one raises ValueError where the unguarded code path handled it as text; `.isdecimal()` is the test that matches int()"))
+    return out
+
+
+_RE_FLAG_NAMES = {"UNICODE", "U", "IGNORECASE", "I", "MULTILINE", "M", "DOTALL", "S", "VERBOSE", "X", "ASCII", "A", "LOCALE", "L", "DEBUG", "NOFLAG"}
+
+
+def regex_flag_as_position(model: Model, fn: FunctionInfo) -> list[Lint]:
+    """``PATTERN.fullmatch(s, re.UNICODE)``: the second positional argument of the methods of a COMPILED pattern is
+    ``pos`` (where matching starts), not flags - re.UNICODE is 32, so the first 32 characters are skipped."""
+    out: list[Lint] = []
+    for n in ast.walk(fn.node):
+        if isinstance(n, ast.Call) and isinstance(n.func, ast.Attribute) and n.func.attr in ("match", "fullmatch", "search", "findall", "finditer") and len(n.args) >= 2:
+            recv = n.func.value
+            if isinstance(recv, ast.Name) and recv.id == "re" or (isinstance(recv, ast.Attribute) and ast.unparse(recv) == "re"):
+                continue  # re.match(pattern, string, flags): there the third argument IS flags
+            a = n.args[1]
+            flagish = [x for x in ast.walk(a) if isinstance(x, ast.Attribute) and x.attr in _RE_FLAG_NAMES and ast.unparse(x.value) in ("re", "regex")]
+            if flagish:
+                out.append(Lint("regex-flag-as-pos", fn, n.lineno, ast.unparse(recv)[:30], f"`{ast.unparse(n)[:70]}` passes `{ast.unparse(a)}` as the second positional argument of a compiled pattern's .{n.func.attr}(): that parameter is `pos`, the index where matching starts, not flags - the first {ast.unparse(a)} (= some dozens of) characters of the string are never looked at, so strings are accepted whatever they start with"))
+    return out
+
+
 def scan(model: Model, files: set[str] | None = None) -> tuple[list[Lint], int]:
     """All lints for the functions defined in ``files`` (relative paths under src/curies; None = everything)."""
     out: list[Lint] = []
@@ -846,4 +917,7 @@ def scan(model: Model, files: set[str] | None = None) -> tuple[list[Lint], int]:
         out += strip_charset(model, fn)
         out += getter_side_effect(model, fn)
         out += format_on_interpolated(model, fn)
+        out += module_level_one_shot(model, fn)
+        out += isdigit_then_int(model, fn)
+        out += regex_flag_as_position(model, fn)
     return out, n
